@@ -970,10 +970,10 @@ class Run:
                         self.keep.append(t)
                         t.cancel()
                         res['task'] = True
-                        self.rec('rl_cancel', bus=op[1])
+                        csq = self.rec('rl_cancel', bus=op[1])
                         done, _p = await asyncio.wait({t}, timeout=op[2] if len(op) > 2 else 1.0)
                         res['done'] = bool(done)
-                        self.rec('rl_cancel_wait', bus=op[1], done=bool(done))
+                        self.rec('rl_cancel_wait', bus=op[1], done=bool(done), cancel_seq=csq)
                 else:
                     raise AssertionError(f'unknown actor op {op}')
             except asyncio.CancelledError:
